@@ -1,6 +1,7 @@
 package main
 
 import (
+	"sync"
 	"regexp"
 	"fmt"
 	"go/token"
@@ -63,6 +64,8 @@ type Engine struct {
 	tier    string
 	implCache map[string][]types.Type
 	heapSorts map[string]string
+	trivMu    sync.Mutex
+	trivNames map[string]bool // contract-level obligations that folded to true on some path
 	loopCache map[*ssa.Function]map[*ssa.BasicBlock]*loopInfo
 	usedExterns, usedContracts map[string]bool
 	externMods map[string][]string
